@@ -1,5 +1,8 @@
-(** Numeric helpers of the DBC parser: strconv.ParseFloat(s, 64), strconv.ParseUint(s, 10, 64),
-    strconv.Atoi, int64(float64) as executed on amd64.  DEFINITIONS ONLY.
+(** Numeric helpers of the DBC parser: strconv.ParseFloat(s, 64), strconv.ParseUint(s, 10, 64)
+    (also with the kind of its error), strconv.Atoi, int64(float64), and the token -> int64
+    conversion of Parser.int ([int_of_token]: after the fix F12 decimal integer tokens are converted
+    exactly; [int_of_token_old]: the code as it was, everything through float64, with int64(2^63) as
+    executed on amd64).  DEFINITIONS ONLY; proofs about the conversion in Dbc/IntConv.v.
 
     Strings are byte lists ([list Z], 0..255); float64 results are IEEE-754 bit patterns ([Z]).
 
@@ -67,9 +70,15 @@ Definition b64_trunc (bits : Z) : Z :=
 
 Definition bits_two63 : Z := 0x43E0000000000000.   (* float64(2^63) = float64(math.MaxInt64) *)
 
-(** int64(f) with the clamps of Parser.int for a non-negative finite f; [f == 2^63] is out of
-    int64's range: amd64's CVTTSD2SQ yields the "integer indefinite" value MinInt64 *)
+(** int64(f) with the clamps of Parser.int for a non-negative finite f (after the fix F12: the upper
+    test is [f >= math.MaxInt64], and float64(math.MaxInt64) = 2^63, so every f >= 2^63 saturates
+    before the conversion is looked at) *)
 Definition int64_of_b64 (bits : Z) : Z :=
+  if bits_two63 <=? bits then two63 - 1 else b64_trunc bits.
+
+(** the code as it was (F12): the test was [f > math.MaxInt64]; [f == 2^63] went on to int64(f),
+    which is out of int64's range: amd64's CVTTSD2SQ yields the "integer indefinite" value MinInt64 *)
+Definition int64_of_b64_old (bits : Z) : Z :=
   if bits_two63 <? bits then two63 - 1
   else if bits =? bits_two63 then - two63
   else b64_trunc bits.
@@ -227,6 +236,62 @@ Definition parse_uint (s : bytes) : option Z :=
   match s with
   | [] => None
   | _ => uint_loop s 0
+  end.
+
+(** strconv.ParseUint(s, 10, 64) with the kind of error: the characters are folded left to right;
+    the first non-digit is ErrSyntax, the first overflow is ErrRange (whatever follows it), and the
+    empty string is ErrSyntax *)
+Inductive uint_res := UOk (u : Z) | URange | USyntax.
+
+Fixpoint uint_loop_r (s : bytes) (acc : Z) : uint_res :=
+  match s with
+  | [] => UOk acc
+  | c :: t =>
+    if dig c then
+      let acc' := acc * 10 + (c - 48) in
+      if two64 <=? acc' then URange else uint_loop_r t acc'
+    else USyntax
+  end.
+
+Definition parse_uint_r (s : bytes) : uint_res :=
+  match s with
+  | [] => USyntax
+  | _ => uint_loop_r s 0
+  end.
+
+(** ------------------------------------------------------------ Parser.int: token -> int64 *)
+
+(** an unsigned magnitude with the sign read before it, saturated at the int64 limits
+    (the switch of Parser.int after F12) *)
+Definition int_of_uint (neg : bool) (u : Z) : Z :=
+  if neg then (if two63 <=? u then - two63 else - u)
+  else (if two63 <=? u then two63 - 1 else u).
+
+(** the float64 path of Parser.int: ParseFloat, int64 conversion with clamps, then [i *= -1] *)
+Definition int_of_float_text (neg : bool) (txt : bytes) : option Z :=
+  match parse_float txt with
+  | Some b => let i := int64_of_b64 b in Some (if neg then neg64 i else i)
+  | None => None
+  end.
+
+(** Parser.int's conversion of a number token ([is_int]: scanner.Int, else scanner.Float) that was
+    preceded by '-' iff [neg]; None = "invalid int".  A scanner.Int token that ParseUint(txt, 10, 64)
+    accepts, or rejects with ErrRange (result math.MaxUint64), is converted exactly and saturated;
+    everything else (float spellings; Int tokens with '_', 0x, 0b, 0o) goes through float64 *)
+Definition int_of_token (is_int neg : bool) (txt : bytes) : option Z :=
+  if is_int then
+    match parse_uint_r txt with
+    | UOk u => Some (int_of_uint neg u)
+    | URange => Some (int_of_uint neg (two64 - 1))
+    | USyntax => int_of_float_text neg txt
+    end
+  else int_of_float_text neg txt.
+
+(** the code as it was (F12): every token through float64, upper clamp with '>' *)
+Definition int_of_token_old (neg : bool) (txt : bytes) : option Z :=
+  match parse_float txt with
+  | Some b => let i := int64_of_b64_old b in Some (if neg then neg64 i else i)
+  | None => None
   end.
 
 (** strconv.Atoi (int is 64 bits) *)
